@@ -152,7 +152,8 @@ def close(pts, cw=False, rot=0):
 # ----------------------------------------------------------------------------
 def build(kind, elements, subtype, derivation):
     from . import geomgen as G
-    arr = G.make_array(kind, elements, subtype)
+    big = any(abs(c) > 2 ** 24 for e in elements for c in G.flat_coords(e))
+    arr = G.make_array(kind, to_float(elements) if big and subtype.startswith('float') else elements, subtype)
     for d in derivation:
         if d[0] == 'slice':
             arr = arr[d[1]:d[2]]
@@ -182,6 +183,14 @@ def apply_logical(elements, derivation):
         elif d[0] == 'rev':
             els = els[::-1]
     return els
+
+
+def to_float(e):
+    if e is None:
+        return None
+    if isinstance(e, (list, tuple)):
+        return [to_float(x) for x in e]
+    return float(e)
 
 
 def export_scalar(el):
@@ -235,7 +244,8 @@ def unpack(v):
 # ----------------------------------------------------------------------------
 # the independent exact oracle (Fractions; clipping + slanted-ray crossing count)
 # ----------------------------------------------------------------------------
-D_SLOPE = 1000003   # the ray has direction (D_SLOPE, 1): through no grid vertex
+D_SLOPE = 2147483647   # prime > 2^27: the ray P + s*(D_SLOPE, 1), s > 0, from a lattice point
+                       # passes through no other lattice point with |coordinate| <= 2^25
 
 
 def seg_meets_box(A, B, box):
